@@ -627,6 +627,9 @@ func renderHeap(h map[string]SV, st *symState, v SV) string {
 		if i := strings.LastIndex(t, "."); i >= 0 {
 			t = t[i+1:]
 		}
+		if strings.HasPrefix(obj, "cell:") {
+			t = "" // a local variable: its name is not part of what was configured
+		}
 		return t + renderHeap(h, st, SV{K: "addr", Known: true, Desc: obj}) + suffix
 	}
 	switch v.K {
@@ -649,6 +652,9 @@ func renderHeap(h map[string]SV, st *symState, v SV) string {
 	case "ref", "addr":
 		if v.K == "ref" && v.Known && v.Nil {
 			return "nil"
+		}
+		if cv, ok := h[v.Desc]; ok && cv.K == "slice" && strings.HasPrefix(v.Desc, "cell:") {
+			return renderHeap(h, st, cv) // a pointer to a variable of a named slice type (MatchServerName): the list it holds
 		}
 		if strings.HasPrefix(v.Desc, "new ") || strings.HasPrefix(v.Desc, "cell:") {
 			// a fresh object: the fields that were assigned
@@ -1314,6 +1320,19 @@ var cfTables = []cfTable{
 			{"two ranges in order", "local_ip 192.168.1.1 10.0.0.0/8", map[string]string{"Ranges": `["192.168.1.1" "10.0.0.0/8"]`}},
 			{"no range", "local_ip", nil},
 			{"block", "local_ip 10.0.0.0/8 {\n x\n}", nil},
+		},
+	},
+	{
+		fn: "modules/l4tls.(*MatchTLS).UnmarshalCaddyfile", source: "tls { <handshake matcher> [<args...>] ... } | tls <handshake matcher> [<args...>] | tls (several lines of one matcher add up: the parser collects all their tokens for the matcher's unmarshaller)",
+		noProvision: true,
+		cases: []cfCase{
+			{"bare", "tls", map[string]string{"MatchersRaw": "map[]"}},
+			{"sni inline", "tls sni a.example.com", map[string]string{"MatchersRaw": `map["sni":["a.example.com"]]`}},
+			{"sni in a block", "tls {\n sni a.example.com b.example.com\n}", map[string]string{"MatchersRaw": `map["sni":["a.example.com" "b.example.com"]]`}},
+			{"two sni lines add up", "tls {\n sni a.example.com b.example.com\n sni c.example.com\n}", map[string]string{"MatchersRaw": `map["sni":["a.example.com" "b.example.com" "c.example.com"]]`}},
+			{"two remote_ip lines add up", "tls {\n remote_ip 10.0.0.0/8\n remote_ip 192.168.0.0/16\n}", map[string]string{"MatchersRaw": `map["remote_ip":{Ranges:["10.0.0.0/8" "192.168.0.0/16"]}]`}},
+			{"sni and local_ip", "tls {\n sni a.example.com\n local_ip 10.0.0.1\n}", map[string]string{"MatchersRaw": `map["local_ip":{Ranges:["10.0.0.1"]} "sni":["a.example.com"]]`}},
+			{"sni without a name", "tls {\n sni\n}", nil},
 		},
 	},
 	{
